@@ -11,7 +11,7 @@ from vf.simk.world import World, Thread, FD, Mapping, oserr
 
 ID = "C03"
 LEVEL = "fault_enumeration"
-DEVS = ("vanish", "zombie", "eacces", "eperm")
+DEVS = ("vanish", "zombie", "eacces", "eperm", "halfgone")
 PSUTIL_ERRS = ("NoSuchProcess", "ZombieProcess", "AccessDenied")
 CACHED_OK = {"pid", "create_time"}
 # operations about *other* processes / the object's liveness: they have a
@@ -64,6 +64,9 @@ def apply_dev(world, dev, kind, subj, pid, persistent=False):
     elif dev == "zombie":
         if pid in world.procs and not world.procs[pid].zombie:
             world.exit(pid, 0)
+    elif dev == "halfgone":
+        if pid in world.procs:
+            world.procs[pid].halfgone = True
     elif dev in ("eacces", "eperm"):
         if not persistent:
             raise oserr(errno.EACCES if dev == "eacces" else errno.EPERM, str(subj))
@@ -250,11 +253,11 @@ class Oracle:
             if info.get("pid") not in okpids:
                 return ("wrong-pid:%s:%s" % (op, cls), "%s raised %s pid=%r, object pid=%r faults=%r"
                         % (op, cls, info.get("pid"), objpid, faults))
-            need = {"NoSuchProcess": {"vanish"}, "ZombieProcess": {"zombie"},
+            need = {"NoSuchProcess": {"vanish", "halfgone"}, "ZombieProcess": {"zombie"},
                     "AccessDenied": {"eacces", "eperm"}}[cls]
             if not (kinds & need):
                 if (cls == "NoSuchProcess" and "PID has been reused" in info.get("str", "")
-                        and kinds <= {"eacces", "eperm", "zombie"} and kinds & {"eacces", "eperm"}):
+                        and kinds <= {"eacces", "eperm", "zombie", "halfgone"} and kinds & {"eacces", "eperm"}):
                     # the identity re-check inside is_running() was refused and
                     # psutil concluded "PID reused"
                     return ("identity-recheck-denied=>pid-reused", "%s raised %s %r; injected faults were %r"
@@ -297,7 +300,9 @@ class Oracle:
             # the kernel itself answers an empty read once the address space is
             # gone: {} is what was published
             accept = accept + [{}, {"environ": {}}]
-        if kinds & {"eacces", "eperm"}:
+        if "halfgone" in kinds and tag == "parent":
+            accept = accept + [None]
+        if kinds & {"eacces", "eperm", "halfgone"}:
             # a refused access may legitimately switch to a fallback source:
             # require the documented shape only (same type as an accepted value)
             if value_ok(op, v, accept, True):
